@@ -17,6 +17,10 @@ Open Scope list_scope.
 (* ---------- values ---------- *)
 Inductive pv :=
 | PNone | PBool (b: bool) | PInt (z: Z) | PFloat (z: Z) | PStr (s: string) | PList (l: list Z)
+| PDec (s: string)                      (* decimal.Decimal, by its str() *)
+| PTd (z: Z)                            (* datetime.timedelta of z seconds *)
+| PTup (l: list Z)                      (* tuple of ints *)
+| PEnum (z: Z)                          (* member of the IntEnum Color with that value *)
 | PFresh (n: nat).                      (* object made by a default_factory, n = allocation label *)
 
 Definition is_none (v: pv) : bool := match v with PNone => true | _ => false end.
@@ -96,11 +100,14 @@ Definition filtered (m: member) : bool := hinted m && seen_init m.   (* line 439
 Definition nullable (m: member) : bool := m_nullty m || dflt_is_none (seen_default m).
 
 (* ---------- field block, builder.py 1308-1414 ---------- *)
-Inductive fb := FbMissing | FbSkip | FbSet (v: pv).
+Inductive fb := FbMissing | FbInvalid | FbSkip | FbSet (v: pv).
+(* what a field block raises *)
+Inductive err := EMissing (f: string) | EInvalid (f: string).
 Inductive passing := PSkip | PPos | PKw | PKwargs.
 
 Section WithConv.
-Variable conv : string -> pv -> pv.     (* the converting unpacker expression of a field *)
+Variable conv : string -> pv -> option pv.   (* the converting unpacker expression of a field; None = it raises
+                                                (any exception: the generated `except:` is bare) *)
 Variable nba : bool.                    (* Config.allow_deserialization_not_by_alias *)
 Variable st : bool.                     (* true = the in_kwargs flag of the assembly loop is sticky (the real code);
                                            false = it is reset by every block (proved equivalent below) *)
@@ -121,8 +128,8 @@ Definition keys_of (m: member) : list string :=
   end.
 
 (* the unpacker expression applied to a value that reaches it *)
-Definition uconv (m: member) (v: pv) : pv :=
-  if m_unull m && is_none v then PNone else conv (m_name m) v.
+Definition uconv (m: member) (v: pv) : option pv :=
+  if m_unull m && is_none v then Some PNone else conv (m_name m) v.
 
 Definition field_block (m: member) (d: inp) : fb :=
   let df := seen_default m in
@@ -132,12 +139,15 @@ Definition field_block (m: member) (d: inp) : fb :=
       if m_ident m then FbSet v
       else if nullable m && is_none v
            then (if has_dflt df && dflt_is_none df then FbSkip else FbSet PNone)
-           else FbSet (uconv m v)
+           else match uconv m v with            (* try: .. except: raise InvalidFieldValue(f, ..) *)
+                | Some w => FbSet w
+                | None => FbInvalid
+                end
   end.
 
 (* one pass over the type hints: mk = missing_kw_only (sticky), ik = in_kwargs (sticky);
-   inl f = raise MissingField(f) *)
-Fixpoint plan (ms: list member) (mk ik: bool) (d: inp) : string + list (member * passing * fb) :=
+   inl e = the first block that raises: MissingField(f) / InvalidFieldValue(f) *)
+Fixpoint plan (ms: list member) (mk ik: bool) (d: inp) : err + list (member * passing * fb) :=
   match ms with
   | [] => inr []
   | m :: r =>
@@ -145,7 +155,8 @@ Fixpoint plan (ms: list member) (mk ik: bool) (d: inp) : string + list (member *
       let kwo := mk || match seen_kw m with Some b => b | None => true end in
       let mk' := mk || match seen_kw m with None => true | Some _ => false end in
       match field_block m d with
-      | FbMissing => inl (m_name m)
+      | FbMissing => inl (EMissing (m_name m))
+      | FbInvalid => inl (EInvalid (m_name m))
       | x =>
         let dfl := has_dflt (seen_default m) in
         let p := if dfl then PKwargs else if kwo || ik then PKw else PPos in
@@ -237,13 +248,17 @@ Fixpoint walk (b: list (string * pv)) (L: layout) (c: nat)
 
 Inductive outcome :=
 | OMissing (f: string)                               (* MissingField(f) *)
+| OInvalid (f: string)                               (* InvalidFieldValue(f) *)
 | OTypeError                                         (* TypeError out of cls(...) *)
 | OOk (a: list (string * option pv)) (c: nat).       (* attributes, next allocation label *)
+
+Definition outcome_of_err (e: err) : outcome :=
+  match e with EMissing f => OMissing f | EInvalid f => OInvalid f end.
 
 (* the generated from_dict *)
 Definition decode (L: layout) (d: inp) (c: nat) : outcome :=
   match plan L false false d with
-  | inl f => OMissing f
+  | inl e => outcome_of_err e
   | inr pl =>
     match bind L (pos_of pl) (kws_of pl ++ kwargs_of pl) with
     | None => OTypeError
@@ -258,30 +273,40 @@ Definition decode (L: layout) (d: inp) (c: nat) : outcome :=
 Definition required (m: member) : bool :=
   hinted m && m_field m && m_param m && negb (has_dflt (m_def m)).
 Definition tnullable (m: member) : bool := m_nullty m || m_unull m || dflt_is_none (m_def m).
-Definition eff_conv (m: member) (v: pv) : pv :=
-  if m_ident m then v else if tnullable m && is_none v then PNone else conv (m_name m) v.
+Definition eff_conv (m: member) (v: pv) : option pv :=
+  if m_ident m then Some v else if tnullable m && is_none v then Some PNone else conv (m_name m) v.
 
 (* the documented key rule: the alias key, with allow_deserialization_not_by_alias the field name as
    fall-back when the alias key is absent; a key holding null is present *)
 Definition has_key (m: member) (d: inp) : bool :=
   match rd m d with Some _ => true | None => false end.
 
-Fixpoint first_missing (L: layout) (d: inp) : option string :=
+(* the first field, in declaration order, whose required key is absent (MissingField) or whose present
+   value cannot be converted (InvalidFieldValue) *)
+Fixpoint first_error (L: layout) (d: inp) : option err :=
   match L with
   | [] => None
-  | m :: r => if required m && negb (has_key m d) then Some (m_name m)
-              else first_missing r d
+  | m :: r =>
+    if hinted m && m_param m then
+      match rd m d with
+      | None => if required m then Some (EMissing (m_name m)) else first_error r d
+      | Some v => match eff_conv m v with
+                  | None => Some (EInvalid (m_name m))
+                  | Some _ => first_error r d
+                  end
+      end
+    else first_error r d
   end.
 
 Definition ref_sel (d: inp) (m: member) : option pv :=
   if hinted m && m_param m
-  then match rd m d with Some v => Some (eff_conv m v) | None => None end
+  then match rd m d with Some v => eff_conv m v | None => None end
   else None.
 Definition ref_bound (L: layout) (d: inp) : list (string * pv) := selmap m_name (ref_sel d) L.
 
 Definition ref_decode (L: layout) (d: inp) (c: nat) : outcome :=
-  match first_missing L d with
-  | Some f => OMissing f
+  match first_error L d with
+  | Some e => outcome_of_err e
   | None => match walk (ref_bound L d) L c with
             | None => OTypeError
             | Some (a, c') => OOk a c'
